@@ -11,8 +11,9 @@ import (
 // C08 - state-machine runs follow the check/action discipline.
 
 type C08Case struct {
-	Case   *CheckCase `json:"case"`
-	Stream []uint64   `json:"stream,omitempty"` // run once through MakeFuzz on these words instead of Check
+	TwoRepeats bool       `json:"tworepeats,omitempty"` // two calls of Repeat per invocation, same action names, one with and one without invariant
+	Case       *CheckCase `json:"case"`
+	Stream     []uint64   `json:"stream,omitempty"` // run once through MakeFuzz on these words instead of Check
 }
 
 type c08 struct{}
@@ -107,6 +108,20 @@ func (c08) Gen(dt *drv.T, c *Ctx) any {
 	}
 	rs.Shared = rs.SM == "" && chance(dt, "sharedmap", 30)
 	p.Body = append(p.Body, rs)
+	if rs.SM == "" && chance(dt, "tworepeats", 15) {
+		// a second state machine in the same property, with the same action names but the other choice of invariant
+		rs2 := &Stmt{Op: "repeat", Actions: rs.Actions, HasInv: !rs.HasInv}
+		if rs2.HasInv {
+			rs2.Inv = []*Stmt{{Op: "log", N: 2}}
+		}
+		if drv.Bool().Draw(dt, "secondfirst") {
+			p.Body[len(p.Body)-1] = rs2
+			p.Body = append(p.Body, rs)
+		} else {
+			p.Body = append(p.Body, rs2)
+		}
+		cs.TwoRepeats = true
+	}
 	if chance(dt, "postdraw", 30) {
 		p.Body = append(p.Body, &Stmt{Op: "draw", Label: "after", Gen: &GenSpec{K: "bool"}})
 	}
@@ -135,11 +150,24 @@ func validateSM(inv *Invocation, hasInv bool) (string, string, string) {
 		switch e.K {
 		case "bogus":
 			return "non-action-called", fmt.Sprintf("method %s is not an action but was called", e.Name), trace.String()
+		case "rstart":
+			// another call of Repeat in the same invocation: what the previous call owed has to be settled, and this
+			// call has its own set of functions
+			if state != "start" || trace.Len() > 0 {
+				if hasInv && state == "after-action-ok" && !failed {
+					return "no-invariant-after-last-action", "Repeat returned after a completed action without running the invariant", trace.String()
+				}
+				trace.WriteString("| ")
+			}
+			state, hasInv = "start", e.ID == 1
 		case "sig":
 			failed = true
 			trace.WriteString("! ")
 		case "istart":
 			trace.WriteString("I")
+			if !hasInv {
+				return "invariant-not-supplied", "an invariant ran during a call of Repeat that was not given one (it belongs to another call)", trace.String()
+			}
 			if !e.Normal {
 				return "foreign-T", "the invariant was called with a different T", trace.String()
 			}
@@ -226,6 +254,9 @@ func (c08) Run(c *Ctx, csAny any) Outcome {
 	var viol *Violation
 	nontrivial := false
 	classes := map[string]bool{}
+	if cs.TwoRepeats {
+		classes["two-Repeat-calls-in-one-invocation"] = true
+	}
 	x.OnDone = func(inv *Invocation) {
 		if viol != nil {
 			return
